@@ -3,6 +3,9 @@ pub mod c07;
 pub mod c08;
 pub mod c09;
 pub mod c10;
+pub mod c13;
+pub mod c14;
+pub mod c15;
 pub mod c17;
 pub mod elfgen;
 pub mod common;
@@ -71,6 +74,18 @@ pub fn spec(prop: &str) -> Option<CheckSpec> {
             info: PropInfo { id: "C17", engine: "model", rule: "init_stack_program_start over generated argv/envp lists (0-300 entries, strings from empty to 4 KiB, non-ASCII, odd and even totals, frames larger than the requested stack) x stack sizes {0, 8, 16, 24, 33, 256, 4 KiB, 4097, 64 KiB, 128 KiB} x machines from new() (code low/high, extra low areas) and from generated and bundled ELF files. Observation is guest-side: argc+envc+3 POP instructions are stepped and RAX read after each; strings are read byte-wise until NUL; the area list (hook) gives freshness, writability and disjointness. distinct_nontrivial = distinct (machine kind, stack size, argv count class, envp count class, parity of the frame) tuples.", assumptions: MODEL_ASSUME, floor: (2_000, 100_000), exhaustive_subspaces: &[] },
             finalize: None,
         },
+        "C13" => CheckSpec {
+            info: PropInfo { id: "C13", engine: "model", rule: "histories of 20-70 guest operations with the built-in brk handler installed: brk(0) queries, moves of the break to base+n (grow, shrink, regrow, sizes from bytes to MiB), guest byte/qword stores and loads inside [base, break) at the edges and in the middle, under random surrounding layouts (areas where the heap is first tried, an area directly above the heap). Model = (base, break, map of bytes the guest stored that stayed below the break); base := first brk(0). The area-list invariant hook of C10 runs after every operation. When growth would run into another area only 'no overlap, no crash' is demanded (counted). distinct_nontrivial = distinct (operation, direction/position, collision) tuples.", assumptions: MODEL_ASSUME, floor: (20_000, 1_000_000), exhaustive_subspaces: &[] },
+            finalize: None,
+        },
+        "C14" => CheckSpec {
+            info: PropInfo { id: "C14", engine: "model", rule: "histories of 20-90 guest syscalls with the built-in pipe handler installed over 1-4 pipes: pipe(), write(n) and read(n) with n in {0, 1, small, page, > available, 2^40, 2^64-1}, buffers in the middle and at the very end of their area, and read/write/other syscalls on descriptors that are not pipe ends; written bytes come from one global counter stream; a probe hook registered after handle_syscalls logs every syscall it is offered. Model = one VecDeque per pipe; every pipe is drained at the end (conservation). distinct_nontrivial = distinct (operation, size class / availability class / descriptor class) tuples.", assumptions: MODEL_ASSUME, floor: (30_000, 2_000_000), exhaustive_subspaces: &[] },
+            finalize: None,
+        },
+        "C15" => CheckSpec {
+            info: PropInfo { id: "C15", engine: "model", rule: "ELF64 executables written by the harness (1-6 PT_LOAD segments in any header order on distinct pages, aligned or unaligned vaddr, filesz/memsz cases equal / bss tail / filesz 0 / page multiples / one byte over a page, all 8 flag masks, benign NOTE / GNU_STACK / GNU_PROPERTY / GNU_EH_FRAME / PHDR / NULL headers, optional .symtab with defined, undefined, duplicate-address, nameless and bad-name-index symbols, entry anywhere) plus the bundled binaries; oracle = the file itself, read back through the area-list hook, mem_read_bytes, RIP and resolve_symbol. PT_TLS / RELRO / vaddr-0 images are outside the claimed space. distinct_nontrivial = distinct (flags, filesz/memsz class, vaddr alignment, size class) segment tuples plus symbol-table classes.", assumptions: MODEL_ASSUME, floor: (2_000, 200_000), exhaustive_subspaces: &[] },
+            finalize: None,
+        },
         _ => return None,
     })
 }
@@ -87,6 +102,9 @@ pub fn monitor(prop: &str, tier: Tier) -> Option<Box<dyn Monitor>> {
         "C08" => Box::new(c08::C08::new(tier)),
         "C09" => Box::new(c09::C09::new(tier)),
         "C10" => Box::new(c10::C10::new(tier)),
+        "C13" => Box::new(c13::C13::new(tier)),
+        "C14" => Box::new(c14::C14::new(tier)),
+        "C15" => Box::new(c15::C15::new(tier)),
         "C17" => Box::new(c17::C17::new(tier)),
         _ => return None,
     })
